@@ -1277,8 +1277,9 @@ def run(chk):
         of_cases.append("; ".join(ops[:-6] + ["close"]))
     with multiprocessing.Pool(max(2, vlib.NCPU - 2)) as pool:
         of_cov, of_bad = c13_fault.run_stage(chk, of_cases, hxbin, lambda f, a: pool.map(f, a, chunksize=1))
-        af_cov, af_bad = c13_fault.run_apply_stage(chk, of_cases, hxbin, lambda f, a: pool.map(f, a, chunksize=1))
+        af_cov, af_bad, af_corr = c13_fault.run_apply_stage(chk, of_cases, hxbin, lambda f, a: pool.map(f, a, chunksize=1))
     of_cov["apply_fault"] = af_cov
+    corr_bad.extend(af_corr)
     evaluations += af_cov["faulted_applies"]
     for b in af_bad:
         prop_bad.append({"kind": "apply-fault", "tag": b["tag"], "case": b["case"], "what": b["problems"][0]["what"] + " - " + b["problems"][0]["fault"],
